@@ -184,7 +184,8 @@ dictionary's own `serialize_*`, un-annotated) — annotate EVERY error of a scal
 (3) Map builders, the other owners of an offsets vector: on a map (`serialize_map` + entries + `end`) the map builder's
 own code fails only with `offset overflow`, only when the last offset plus the number of entries really exceeds
 `i32::MAX`, and then the error is annotated with the map's own path and `Map(..)` — not with the keys' / values' /
-entries' position. -/
+entries' position.
+(4) `ListBuilder::serialize_bytes` (every byte an element): the same as (1) with the number of bytes. -/
 theorem C18_capacity_blame (ext : Ext) [ExtPlain ext] :
     (∀ (p : String) (large : Bool) (fm : FieldMeta) (v : Validity) (offs : List Int) (el : B) (xs : SVals) (x : SVal)
       (msg : String), x = .seq xs ∨ x = .tuple xs ∨ (∃ nm, x = .tupleStruct nm xs) → WFB (.list p large fm v offs el) →
@@ -198,8 +199,13 @@ theorem C18_capacity_blame (ext : Ext) [ExtPlain ext] :
       WFB (.map p mm v offs ks vs) → callBody ext (.map p mm v offs ks vs) (.val (.map es)) = .error (.err msg) →
       msg = "offset overflow" ∧ ((dec ks).length : Int) + elen es > offMax false ∧
       push ext (.map p mm v offs ks vs) (.map es) =
-        .error (.errCtx "offset overflow" [("data_type", "Map(..)"), ("field", p)])) := by
-  refine ⟨?_, ?_, ?_⟩
+        .error (.errCtx "offset overflow" [("data_type", "Map(..)"), ("field", p)])) ∧
+    (∀ (p : String) (large : Bool) (fm : FieldMeta) (v : Validity) (offs : List Int) (el : B) (bs : Bytes) (msg : String),
+      WFB (.list p large fm v offs el) → callBody ext (.list p large fm v offs el) (.val (.bytes bs)) = .error (.err msg) →
+      msg = "offset overflow" ∧ ((dec el).length : Int) + bs.length > offMax large ∧
+      push ext (.list p large fm v offs el) (.bytes bs) =
+        .error (.errCtx "offset overflow" [("data_type", if large then "LargeList" else "List"), ("field", p)])) := by
+  refine ⟨?_, ?_, ?_, ?_⟩
   · intro p large fm v offs el xs x msg hx hw hbody
     have hw' := hw
     simp only [WFB] at hw'
@@ -260,6 +266,24 @@ theorem C18_capacity_blame (ext : Ext) [ExtPlain ext] :
     obtain ⟨rfl, _⟩ := hres
     rw [own_failure_blames_self ext _ (.map es) _ (by intro v' h; cases h) (by intro n' v' h; cases h) hbody]
     rfl
+  · intro p large fm v offs el bs msg hw hbody
+    have hw' := hw
+    simp only [WFB] at hw'
+    have hlast := hw'.1.2.1
+    obtain ⟨v', hv'⟩ := setValidity_true_total v (offs.length - 1)
+    have hres : msg = "offset overflow" ∧ ((dec el).length : Int) + bs.length > offMax large := by
+      simp only [callBody, valBody, hv', duplicateLast_total hlast, bind, Except.bind] at hbody
+      cases hpe : pushByteElems ext large el (offs ++ [((dec el).length : Int)]) bs with
+      | ok r => rw [hpe] at hbody; cases hbody
+      | error e =>
+        rw [hpe] at hbody
+        simp only at hbody
+        cases hbody
+        exact pushByteElems_plain ext large bs el _ _ msg (by simp) (by omega) hpe
+    refine ⟨hres.1, hres.2, ?_⟩
+    obtain ⟨rfl, _⟩ := hres
+    rw [own_failure_blames_self ext _ (.bytes bs) _ (by intro v' h; cases h) (by intro n' v' h; cases h) hbody]
+    rfl
 
 /-- non-vacuity of (2), the dictionary key range: `Dictionary(Int8, Utf8)` holding 128 values refuses the 129th; the
 error is the dictionary's, `$.d` / `Dictionary(..)`, not the key builder's -/
@@ -267,6 +291,15 @@ example :
     push {} (.dictionary "$.d" (.leaf "$.d.key" (.int .i8) none []) (.bytes "$.d.value" .utf8 none [0] [])
       ((List.range 128).map toString)) (.str "x") =
     .error (.errCtx "out of range integral type conversion attempted" [("data_type", "Dictionary(..)"), ("field", "$.d")]) := by
+  decide +kernel
+
+/-- the mechanism of (3): a map builder whose last offset is `i32::MAX` refuses the next entry itself — `$.m` / `Map(..)`,
+not `$.m.entries` or the key column (the state is written down directly: a reachable one holds 2^31 − 1 entries) -/
+example :
+    push {} (.map "$.m" ⟨"entries", false, ⟨"key", false, []⟩, ⟨"value", false, []⟩⟩ none [2147483647]
+      (.bytes "$.m.entries.key" .utf8 none [0] []) (.leaf "$.m.entries.value" (.int .i32) none []))
+      (.map (.cons (.str "k") (.int .i32 1) .nil)) =
+    .error (.errCtx "offset overflow" [("data_type", "Map(..)"), ("field", "$.m")]) := by
   decide +kernel
 
 /-! ### the former cell `dict_null_cell` (repo fix ca6f255) -/
